@@ -273,6 +273,7 @@ class Interp:
         self.watch = set()      # repo qualnames whose calls are logged
         self.positive = lambda atom: True   # atoms are positive quantities unless told otherwise
         self._const_cache = {}
+        self.apps = {}          # opaque application atom -> (tag, args, kwargs)
         self._install_builtins()
         self.reset([])
 
@@ -496,6 +497,7 @@ class Interp:
         for a in list(args) + [v for _, v in sorted(kwargs.items())]:
             parts.append(self.describe(a))
         name = f"{fv.tag}({','.join(parts)})"
+        self.apps[name] = (fv.tag, list(args), dict(kwargs))
         a0 = args[0] if args else None
         if isinstance(a0, Arr):
             return Arr(Num.atom(name), a0.sel, "array", a0.index)
